@@ -2,7 +2,7 @@
 From Coq Require Import List Bool Ascii String ZArith.
 Import ListNotations.
 From Lime Require Import Base.Str Base.Res Base.Json Codec.Types Codec.TextForms Codec.TextFormsFacts
-  Codec.Doc Codec.DocFacts Codec.Envelope Codec.EnvelopeFacts Corr.Codec Corr.C01 Corr.C01Facts.
+  Codec.Doc Codec.DocFacts Codec.Envelope Codec.EnvelopeFacts Codec.Registry Corr.Codec Corr.C01 Corr.C01Facts.
 Open Scope string_scope.
 
 (* Every well-formed envelope of every kind - any identifiers, nodes, metadata,
@@ -48,6 +48,17 @@ Theorem C01_parsed_values_wf : forall s, wf_node (parse_node s) = true /\
   forall m, parse_mt repaired s = Some m -> wf_mt m = true.
 Proof. intros s. split; [apply parse_node_wf | apply parse_mt_wf]. Qed.
 Print Assumptions C01_parsed_values_wf.
+
+(* Registered custom types (mediatype.go: RegisterDocumentFactory / GetDocumentFactory): whatever was registered or
+   decoded before and in between, a document of media type t is decoded by the registered type exactly when a
+   registration of t came before that decode - also when t was decoded, generically, before it was registered -
+   and never by a type registered for another media type. *)
+Theorem C01_registered_types_are_used : forall ops t is_json rest,
+  rrun [] (ops ++ RDecode t is_json :: rest) =
+  (rrun [] ops ++ (if registered_by ops t then RkCustom t else if is_json then RkJson else RkText) ::
+   rrun (reg_after [] ops) rest)%list.
+Proof. exact decode_after. Qed.
+Print Assumptions C01_registered_types_are_used.
 
 (* the executable check evaluated on implementation observations is met by the model on every case *)
 Theorem C01_model_meets_check : forall c : case, check (model_case c) = true.
